@@ -147,6 +147,26 @@ func genCrash(cfg simkit.RunConfig, backend string) *Scenario {
 	default:
 		sc.Net.Plan[fmt.Sprintf("tso:0:%s+%d", mark, pos-2*maxCrashPos)] = simkit.CrashBefore
 	}
+	if cfg.Mode == "crashfaults" {
+		// the same enumeration with a lossy network around it: lost clean-up messages of earlier
+		// statements, retried requests, resolvers that cache what they learned
+		r2 := simkit.Rand(cfg.Seed, "bgfaults")
+		sc.Net.Random = true
+		sc.Net.Rate = []float64{0.05, 0.1, 0.2}[r2.Intn(3)]
+		sc.Net.Kinds = []simkit.Fate{simkit.DropReq, simkit.DropResp, simkit.Dup, simkit.Delay, simkit.RENotLeader, simkit.REEpochNotMatch, simkit.REServerIsBusy}
+		// the victim is more often a multi-statement pessimistic transaction whose earlier lock calls fail
+		v := &sc.Txns[0]
+		if v.Pessimistic && r2.Intn(2) == 0 {
+			pre := []Op{{Kind: "lock", Keys: subset(r2, keyPool, 1, 3), NoWait: r2.Intn(2) == 0, WaitMs: 20 + r2.Intn(100)}}
+			v.Ops = append(pre, v.Ops...)
+		}
+		// one resolver client keeps reading over a long time (its status cache lives on)
+		for i := range sc.Txns {
+			if sc.Txns[i].Client == 1 && len(sc.Txns[i].Ops) > 0 && sc.Txns[i].Ops[0].Kind == "bget" {
+				sc.Txns[i].Ops = append(sc.Txns[i].Ops, Op{Kind: "sleep", SleepMs: 3000 + r2.Intn(25000)}, Op{Kind: "bget", Keys: append([]string(nil), keyPool...)}, Op{Kind: "iter"})
+			}
+		}
+	}
 	return sc
 }
 
@@ -171,6 +191,19 @@ func genFaults(cfg simkit.RunConfig, backend string) *Scenario {
 	mark := fmt.Sprintf("end%d", sc.Txns[0].ID)
 	if pos < singles {
 		sc.Net.Plan[fmt.Sprintf("ord:0:%s+%d", mark, pos/len(commitFaults))] = commitFaults[pos%len(commitFaults)]
+	} else if pos%4 == 3 {
+		// a fault that does not heal: one lost message, then the same region error / loss for every later
+		// request of the committer (its back-off budget runs out), or the caller's context is cancelled
+		r2 := simkit.Rand(cfg.Seed, "persist")
+		i := r2.Intn(maxFaultPos / 2)
+		sc.Net.Plan[fmt.Sprintf("ord:0:%s+%d", mark, i)] = pick(r2, []simkit.Fate{simkit.DropResp, simkit.DropRespSlow, simkit.DropReq, simkit.Deliver})
+		switch r2.Intn(3) {
+		case 0, 1:
+			sc.Net.Persist = map[string]simkit.Fate{fmt.Sprintf("ord:0:%s+%d", mark, i+1): pick(r2, []simkit.Fate{simkit.RERegionNotFound, simkit.REEpochNotMatch, simkit.RENotLeader, simkit.REServerIsBusy, simkit.DropReq, simkit.REStaleCommand})}
+		default:
+			sc.Txns[0].CancelMs = 1 + r2.Intn(400)
+			sc.Net.Plan[fmt.Sprintf("ord:0:%s+%d", mark, i+1)] = pick(r2, []simkit.Fate{simkit.RERegionNotFound, simkit.REEpochNotMatch, simkit.Stall})
+		}
 	} else {
 		r2 := simkit.Rand(cfg.Seed, "pair")
 		i := r2.Intn(maxFaultPos)
@@ -340,14 +373,28 @@ func genRYW(cfg simkit.RunConfig, backend string) *Scenario {
 	sc.Stores, sc.Splits = genLayout(r)
 	sc.Clients = 2
 	keys := keyPool
+	var bounds []string
+	if r.Intn(3) == 0 {
+		// keys that share a prefix longer than the radix tree keeps inside a node, with suffixes that
+		// differ late, and scan bounds that diverge from them inside the shared part
+		pfx := "k" + string(make([]byte, 23)) // 24 bytes: 'k' + 23 x 0x00
+		keys = []string{pfx + "\x00\x05a", pfx + "\x00\x05b", pfx + "\x00\x07", pfx + "\x01", pfx + "\x01\x00", pfx[:22] + "\x02"}
+		bounds = []string{pfx + "\x00\x03", pfx + "\x00\x06", pfx + "\x00", pfx[:23] + "\x01", pfx[:21], pfx + "\x02"}
+		sort.Strings(keys)
+		sc.Keys = keys
+		sc.Splits = nil
+		if r.Intn(2) == 0 {
+			sc.Splits = []string{keys[2]}
+		}
+	}
 	id := 0
 	pre := TxnProg{ID: id, Client: 1, End: "commit"}
-	for _, k := range subset(r, keys, 2, 6) {
-		pre.Ops = append(pre.Ops, Op{Kind: "set", Keys: []string{k}, Val: "p." + k})
+	for i, k := range subset(r, keys, 2, 6) {
+		pre.Ops = append(pre.Ops, Op{Kind: "set", Keys: []string{k}, Val: fmt.Sprintf("p.%d", i)})
 	}
 	sc.Txns = append(sc.Txns, pre)
 	id++
-	o := genOpts{maxTxns: 4, pessRate: 0.3, backend: backend, boundedRiter: true, staging: true, maxOps: 14}
+	o := genOpts{maxTxns: 4, pessRate: 0.3, backend: backend, boundedRiter: true, staging: true, maxOps: 14, bounds: bounds}
 	nmain := 1 + r.Intn(2)
 	for i := 0; i < nmain; i++ {
 		p := genTxn(r, id, 1, o, keys)
@@ -356,7 +403,7 @@ func genRYW(cfg simkit.RunConfig, backend string) *Scenario {
 		id++
 	}
 	nbg := r.Intn(3)
-	ob := genOpts{maxTxns: 4, pessRate: 0.3, backend: backend, boundedRiter: true}
+	ob := genOpts{maxTxns: 4, pessRate: 0.3, backend: backend, boundedRiter: true, bounds: bounds}
 	for i := 0; i < nbg; i++ {
 		p := genTxn(r, id, 2, ob, keys)
 		p.Client = 1
